@@ -1,6 +1,1154 @@
-//! C02 — not built yet.
-use crate::ev::Tier;
-pub fn main(_tier: Tier, _replay: Option<serde_json::Value>) -> i32 {
-    eprintln!("C02: check not built yet");
-    2
+//! C02 — soundness: an adversary menu (forced honest algorithm, reference
+//! adversarial prover M3, broken copy constraints, solved-for forged
+//! evaluations, splices, degenerate proofs) is presented to the real verifier
+//! under every version; nothing but the controls may be accepted.
+
+use std::collections::{BTreeMap, BTreeSet, HashMap};
+use std::panic::{catch_unwind, AssertUnwindSafe};
+use std::sync::{Arc, Mutex};
+
+use dusk_bls12_381::G1Affine;
+use dusk_bytes::Serializable;
+use dusk_plonk::prelude::*;
+use serde_json::{json, Value};
+
+use crate::c03::{self, pv, to_hex, Circ};
+use crate::c05::{family_assignment, merged_row, solve_pis, Fam};
+use crate::ev::{Run, Tier};
+use crate::fe::*;
+use crate::m1;
+use crate::m2::{self, Version};
+use crate::m3::{self, Adversary, Instance, ProverData, Stage};
+use crate::prog::Prog;
+use crate::rows::{self, Assign, Layout, Place, RowSpec};
+
+const LABEL: &[u8] = b"c02";
+pub const VERSIONS: [Version; 3] = [Version::V1, Version::V2, Version::V3];
+pub const SELECTOR_SLOTS: [usize; 4] = [m3::E_QARITH, m3::E_QC, m3::E_QL, m3::E_QR];
+
+// ---------------------------------------------------------------------------
+// base circuits
+// ---------------------------------------------------------------------------
+
+#[derive(Clone)]
+pub enum Source {
+    /// raw rows; the satisfying assignments (>= 1)
+    Rows(Layout, Vec<Assign>),
+    /// public components; instances differ by post-hoc witness overrides
+    Comp(Prog),
+}
+
+pub struct Base {
+    pub name: String,
+    pub family: &'static str,
+    pub source: Source,
+    pub circ: Circ,
+    pub pd: Arc<ProverData>,
+    pub model: m1::Model,
+}
+
+/// How an instance of a base circuit is built.
+#[derive(Clone, Debug)]
+pub enum Inst {
+    Rows(Assign),
+    Over(Vec<(usize, Fe)>),
+}
+
+impl Base {
+    pub fn prog(&self, inst: &Inst) -> Prog {
+        match (&self.source, inst) {
+            (Source::Rows(lay, _), Inst::Rows(a)) => rows::prog(lay, a),
+            (Source::Comp(p), Inst::Over(o)) => p.with_overrides(o.clone()),
+            _ => panic!("instance kind does not match the base circuit"),
+        }
+    }
+    pub fn honest(&self, variant: usize) -> Inst {
+        match &self.source {
+            Source::Rows(_, asgs) => Inst::Rows(asgs[variant % asgs.len()].clone()),
+            Source::Comp(_) => Inst::Over(vec![]),
+        }
+    }
+}
+
+fn two_rows(f: Fam) -> (Layout, Vec<Assign>) {
+    let lay = Layout { rows: vec![merged_row(&[f]), RowSpec::zero()], share: vec![], place: Place::First };
+    let asgs = (1..3)
+        .map(|v| {
+            let (c, n) = family_assignment(f, v);
+            Assign::new(vec![c, n], vec![zero(); 2])
+        })
+        .collect();
+    (lay, asgs)
+}
+
+fn base_sources() -> Vec<(&'static str, &'static str, Source)> {
+    let mut v: Vec<(&'static str, &'static str, Source)> = Vec::new();
+    // arithmetic, two public inputs
+    {
+        let lay = Layout { rows: vec![merged_row(&[Fam::Arith]), merged_row(&[Fam::Arith])], share: vec![], place: Place::First };
+        let mut asgs = vec![];
+        for k in 0..2u64 {
+            let mut a = Assign::new(vec![[fe(2 + k), fe(3), fe(5), fe(7)], [fe(11), fe(13), fe(17 + k), fe(19)]], vec![zero(); 2]);
+            solve_pis(&lay, &mut a);
+            asgs.push(a);
+        }
+        v.push(("arith2pi", "arith", Source::Rows(lay, asgs)));
+    }
+    for (name, fam, f) in [("range", "range", Fam::Range), ("fixed", "fixed", Fam::Fixed), ("var", "var", Fam::Var)] {
+        let (lay, asgs) = two_rows(f);
+        v.push((name, fam, Source::Rows(lay, asgs)));
+    }
+    // logic: AND and XOR rows
+    {
+        let lay = Layout { rows: vec![merged_row(&[Fam::And]), RowSpec::zero(), merged_row(&[Fam::Xor]), RowSpec::zero()], share: vec![], place: Place::First };
+        let asgs = (1..3)
+            .map(|k| {
+                let (c1, n1) = family_assignment(Fam::And, k);
+                let (c2, n2) = family_assignment(Fam::Xor, k + 1);
+                Assign::new(vec![c1, n1, c2, n2], vec![zero(); 4])
+            })
+            .collect();
+        v.push(("logic", "logic", Source::Rows(lay, asgs)));
+    }
+    // all families + arithmetic/PI rows, last row of a full domain active
+    {
+        let (lay, asgs) = m3::circuits::mixed_layout(16);
+        v.push(("mixed16", "mixed", Source::Rows(lay, asgs)));
+    }
+    // arithmetic rows sharing a witness (copy constraint on active rows)
+    {
+        let lay = Layout {
+            rows: vec![merged_row(&[Fam::Arith]), merged_row(&[Fam::Arith])],
+            share: vec![vec![(0, 0), (1, 0)], vec![(0, 2), (1, 1)], vec![(0, 3), (1, 3)]],
+            place: Place::First,
+        };
+        let mut a = Assign::new(vec![[fe(4), fe(3), fe(5), fe(7)], [fe(4), fe(5), fe(17), fe(7)]], vec![zero(); 2]);
+        solve_pis(&lay, &mut a);
+        v.push(("copyarith", "copy", Source::Rows(lay, vec![a])));
+    }
+    // public components
+    v.push((
+        "components",
+        "components",
+        Source::Comp(Prog::new(|c| {
+            let x = c.append_witness(fe(0xa7));
+            c.component_range_bits::<8>(x);
+            let b = c.append_witness(fe(1));
+            c.component_boolean(b);
+            let y = c.append_witness(fe(9));
+            let s = c.component_select(b, x, y);
+            c.assert_equal_constant(s, fe(0), Some(fe(0xa7)));
+            Ok(())
+        })),
+    ));
+    v
+}
+
+fn make_base(name: &str, family: &'static str, source: Source) -> Result<Base, String> {
+    let prog = match &source {
+        Source::Rows(lay, asgs) => rows::prog(lay, &asgs[0]),
+        Source::Comp(p) => p.with_overrides(vec![]),
+    };
+    let circ = c03::compile(name, &prog, LABEL)?;
+    let pd = m3::parse_prover(&circ.prover.to_bytes()).map_err(|e| format!("{}: M3 cannot parse the prover: {}", name, e))?;
+    if pd.size > 64 {
+        return Err(format!("{}: n = {} exceeds M3's bound", name, pd.size));
+    }
+    let model = m1::Model::new(&circ.snap);
+    Ok(Base { name: name.to_string(), family, source, circ, pd: Arc::new(pd), model })
+}
+
+// ---------------------------------------------------------------------------
+// items
+// ---------------------------------------------------------------------------
+
+#[derive(Clone, Debug)]
+pub enum Work {
+    /// honest proofs (V2, V3 real prover; V1-shaped through M3): must be accepted
+    Control,
+    /// real prover with the force switch (V3 and V2 proofs)
+    Forced(Inst),
+    /// M3 with the remainder dropped
+    M3Drop(Inst),
+    /// M3 on a violating instance, evaluation `slot` solved so that the
+    /// linearisation balances; all opening shapes
+    Forge(Inst, usize),
+    /// splices of two honest proofs; pair 0: same witness, two RNG scripts;
+    /// pair 1: two witnesses
+    Splice(usize, Version),
+    Degenerate,
+    /// S7: M3 betting that z_comm is not absorbed: z(X) is solved row by row
+    /// *after* alpha is known so that the whole quotient identity holds on the
+    /// domain although a gate (or copy constraint) is violated
+    AdaptiveZ(Inst),
+}
+
+#[derive(Clone, Debug)]
+pub struct Item {
+    pub name: String,
+    pub strategy: &'static str,
+    pub base: usize,
+    pub work: Work,
+}
+
+/// Single-position perturbations of an assignment.
+fn perturb_values(v: Fe) -> Vec<(&'static str, Fe)> {
+    let mut out = vec![("+1", v + one()), ("-1", v - one()), ("+4", v + fe(4))];
+    if v + v != v {
+        out.push(("x2", v + v));
+    }
+    out
+}
+
+/// Candidate deviations of bound 1 (and 2) for a base; the M1 filter is applied
+/// by the worker (only M1-unsatisfied instances are adversarial).
+fn deviations(b: &Base, bound2: bool) -> Vec<(String, Inst)> {
+    let mut out = Vec::new();
+    match &b.source {
+        Source::Rows(lay, asgs) => {
+            let a0 = &asgs[0];
+            let mut singles: Vec<(String, usize, usize, Fe)> = vec![];
+            for r in 0..lay.rows.len() {
+                for k in 0..4 {
+                    for (pn, pv) in perturb_values(a0.vals[r][k]) {
+                        let mut a = a0.clone();
+                        a.vals[r][k] = pv;
+                        out.push((format!("r{}w{}{}", r, k, pn), Inst::Rows(a)));
+                        if pn == "+1" || pn == "-1" {
+                            singles.push((format!("r{}w{}{}", r, k, pn), r, k, pv));
+                        }
+                    }
+                }
+                if lay.rows[r].has_pi {
+                    let mut a = a0.clone();
+                    a.pis[r] += one();
+                    out.push((format!("r{}pi+1", r), Inst::Rows(a)));
+                }
+            }
+            if bound2 {
+                for i in 0..singles.len() {
+                    for j in i + 1..singles.len() {
+                        let (n1, r1, k1, v1) = &singles[i];
+                        let (n2, r2, k2, v2) = &singles[j];
+                        if (r1, k1) == (r2, k2) {
+                            continue;
+                        }
+                        // keep the pair space bounded on layouts of more than 12 rows: same or adjacent rows
+                        if lay.rows.len() > 12 && (*r1 as i64 - *r2 as i64).abs() > 1 {
+                            continue;
+                        }
+                        let mut a = a0.clone();
+                        a.vals[*r1][*k1] = *v1;
+                        a.vals[*r2][*k2] = *v2;
+                        out.push((format!("pair/{}/{}", n1, n2), Inst::Rows(a)));
+                    }
+                }
+            }
+        }
+        Source::Comp(_) => {
+            let nw = b.circ.snap.witnesses.len();
+            for i in 0..nw {
+                for (pn, pv) in perturb_values(b.circ.snap.witnesses[i]) {
+                    out.push((format!("w{}{}", i, pn), Inst::Over(vec![(i, pv)])));
+                }
+            }
+            if bound2 {
+                for i in 0..nw {
+                    for j in i + 1..nw {
+                        out.push((format!("pair/w{}+1/w{}+1", i, j), Inst::Over(vec![(i, b.circ.snap.witnesses[i] + one()), (j, b.circ.snap.witnesses[j] + one())])));
+                    }
+                }
+            }
+        }
+    }
+    out
+}
+
+/// Instances of `copyarith` that satisfy every row but break one compiled copy
+/// constraint.
+fn copy_breaks(b: &Base) -> Vec<(String, Inst)> {
+    let Source::Rows(lay, asgs) = &b.source else { return vec![] };
+    let mut out = vec![];
+    for (gi, g) in lay.share.iter().enumerate() {
+        for delta in [1u64, 5] {
+            let mut a = asgs[0].clone();
+            // every position its own witness except the other groups
+            a.share = Some(lay.share.iter().enumerate().filter(|(i, _)| *i != gi).map(|(_, g)| g.clone()).collect());
+            let (r, k) = g[1];
+            a.vals[r][k] += fe(delta);
+            solve_pis(lay, &mut a);
+            out.push((format!("group{}+{}", gi, delta), Inst::Rows(a)));
+        }
+    }
+    out
+}
+
+pub struct World {
+    pub bases: Vec<Base>,
+    pub items: Vec<Item>,
+}
+
+pub fn build_world(tier: Tier) -> Result<World, String> {
+    let thorough = tier == Tier::Thorough;
+    let mut specs: Vec<(String, &'static str, Source)> = base_sources().into_iter().map(|(n, f, s)| (n.to_string(), f, s)).collect();
+    // S3: c05's copy layouts (zero rows sharing one witness) with broken instances
+    let copy_cases: Vec<crate::c05::Case> = crate::c05::enumerate(tier).into_iter().filter(|c| c.name.starts_with("copy/") && c.name.ends_with("/broken")).collect();
+    let mut copy_index: Vec<(usize, Assign, String)> = Vec::new();
+    let mut seen: HashMap<u64, usize> = HashMap::new();
+    for c in &copy_cases {
+        let key = c.lay.key();
+        let bi = *seen.entry(key).or_insert_with(|| {
+            specs.push((format!("c05copy{:016x}", key), "copy", Source::Rows(c.lay.clone(), vec![rows::zero_assign(&c.lay)])));
+            specs.len() - 1
+        });
+        copy_index.push((bi, c.asg.clone(), c.name.clone()));
+    }
+    let built = crate::par::par_map(&specs, |(n, f, s)| make_base(n, f, s.clone()));
+    let mut bases = Vec::new();
+    for r in built {
+        bases.push(r.map_err(|p| format!("panic while compiling a base circuit: {}", p))??);
+    }
+
+    let mut items = Vec::new();
+    let n_named = base_sources().len();
+    for (bi, b) in bases.iter().enumerate().take(n_named) {
+        items.push(Item { name: format!("control/{}", b.name), strategy: "control", base: bi, work: Work::Control });
+        // S1 / S2
+        if b.family != "copy" {
+            for (dn, inst) in deviations(b, thorough) {
+                items.push(Item { name: format!("S1/{}/{}", b.name, dn), strategy: "S1", base: bi, work: Work::Forced(inst.clone()) });
+                // M3 is slower than the real prover: bound-1 "+1" deviations in quick; all
+                // bound-1 deviations, and the pairs of the small circuits, in thorough
+                let pair = dn.starts_with("pair/");
+                let s2 = if thorough { !pair || b.pd.size <= 8 } else { !pair && dn.ends_with("+1") };
+                if s2 {
+                    items.push(Item { name: format!("S2/{}/{}", b.name, dn), strategy: "S2", base: bi, work: Work::M3Drop(inst) });
+                }
+            }
+        }
+        // S3 on active rows
+        for (dn, inst) in copy_breaks(b) {
+            if b.family == "copy" {
+                items.push(Item { name: format!("S3/{}/{}/forced", b.name, dn), strategy: "S3", base: bi, work: Work::Forced(inst.clone()) });
+                items.push(Item { name: format!("S3/{}/{}/m3", b.name, dn), strategy: "S3", base: bi, work: Work::M3Drop(inst) });
+            }
+        }
+        // S4
+        let s4 = match tier {
+            Tier::Quick => ["arith2pi", "range", "logic", "fixed", "var", "mixed16"].contains(&b.name.as_str()),
+            Tier::Thorough => b.family != "copy",
+        };
+        if s4 {
+            if let Some((dn, inst)) = first_violation(b) {
+                for slot in 0..15 {
+                    items.push(Item { name: format!("S4/{}/{}/{}", b.name, dn, m3::EVAL_NAMES[slot]), strategy: "S4", base: bi, work: Work::Forge(inst.clone(), slot) });
+                }
+            }
+        }
+        // S5
+        let s5 = match tier {
+            Tier::Quick => ["arith2pi", "fixed"].contains(&b.name.as_str()),
+            Tier::Thorough => b.family != "copy",
+        };
+        if s5 {
+            for ver in [Version::V3, Version::V2] {
+                for pair in 0..2 {
+                    if pair == 1 && matches!(b.source, Source::Comp(_)) {
+                        continue;
+                    }
+                    items.push(Item { name: format!("S5/{}/pair{}/{}", b.name, pair, ver.name()), strategy: "S5", base: bi, work: Work::Splice(pair, ver) });
+                }
+            }
+        }
+        // S7
+        let s7 = match tier {
+            Tier::Quick => ["arith2pi", "range", "mixed16", "copyarith"].contains(&b.name.as_str()),
+            Tier::Thorough => true,
+        };
+        if s7 {
+            let viol = if b.family == "copy" { copy_breaks(b).into_iter().next() } else { first_violation(b) };
+            if let Some((dn, inst)) = viol {
+                items.push(Item { name: format!("S7/{}/{}", b.name, dn), strategy: "S7", base: bi, work: Work::AdaptiveZ(inst) });
+            }
+        }
+        // S6
+        let s6 = match tier {
+            Tier::Quick => ["arith2pi", "mixed16", "copyarith", "components"].contains(&b.name.as_str()),
+            Tier::Thorough => true,
+        };
+        if s6 {
+            items.push(Item { name: format!("S6/{}", b.name), strategy: "S6", base: bi, work: Work::Degenerate });
+        }
+    }
+    for (bi, asg, cname) in copy_index {
+        items.push(Item { name: format!("S3/{}/forced", cname), strategy: "S3", base: bi, work: Work::Forced(Inst::Rows(asg.clone())) });
+        items.push(Item { name: format!("S3/{}/m3", cname), strategy: "S3", base: bi, work: Work::M3Drop(Inst::Rows(asg)) });
+    }
+    Ok(World { bases, items })
+}
+
+/// First bound-1 deviation M1 classifies as violating a gate.
+fn first_violation(b: &Base) -> Option<(String, Inst)> {
+    for (dn, inst) in deviations(b, false) {
+        if let Ok(snap) = b.prog(&inst).run() {
+            if let m1::Verdict::Rows { gate_fails, .. } = b.model.decide(&snap) {
+                if !gate_fails.is_empty() {
+                    return Some((dn, inst));
+                }
+            }
+        }
+    }
+    None
+}
+
+// ---------------------------------------------------------------------------
+// presenting a proof to the real verifier
+// ---------------------------------------------------------------------------
+
+#[derive(Clone, Debug, PartialEq, Eq)]
+pub enum Out {
+    Accept,
+    Reject(String),
+    /// `Proof::from_bytes` refuses the bytes (counts as rejected)
+    Undecodable,
+    Panic(String),
+}
+impl Out {
+    fn short(&self) -> &'static str {
+        match self {
+            Out::Accept => "accept",
+            Out::Reject(_) => "reject",
+            Out::Undecodable => "undecodable",
+            Out::Panic(_) => "panic",
+        }
+    }
+}
+
+/// One presentation of adversarial (or control) bytes to one verifier version.
+#[derive(Clone, Debug)]
+pub struct Pres {
+    /// what was presented (splice name, opening shape, ...)
+    pub label: String,
+    pub ver: Version,
+    pub out: Out,
+    pub expect_accept: bool,
+    /// S4: the forged slot when this presentation is the documented-legacy
+    /// acceptance candidate (V1 verifier, V1-shaped proof, selector slot)
+    pub f5_slot: Option<usize>,
+    /// S4: forged slot (any)
+    pub slot: Option<usize>,
+    pub m2: Option<bool>,
+    pub wellformed: bool,
+    pub hash: u64,
+    pub bytes_hex: Option<String>,
+}
+
+fn present_one(b: &Base, bytes: &[u8], pis: &[Fe], ver: Version) -> (Out, bool) {
+    let Ok(arr) = <[u8; 1008]>::try_from(bytes) else { return (Out::Undecodable, false) };
+    let proof = match catch_unwind(AssertUnwindSafe(|| <Proof as Serializable<1008>>::from_bytes(&arr))) {
+        Err(e) => return (Out::Panic(format!("Proof::from_bytes: {}", crate::par::panic_msg(e))), false),
+        Ok(Err(_)) => return (Out::Undecodable, false),
+        Ok(Ok(p)) => p,
+    };
+    let r = catch_unwind(AssertUnwindSafe(|| b.circ.verifier.verify_with_version(&proof, pis, pv(ver))));
+    let out = match r {
+        Err(e) => Out::Panic(crate::par::panic_msg(e)),
+        Ok(Ok(())) => Out::Accept,
+        Ok(Err(e)) => Out::Reject(format!("{:?}", e)),
+    };
+    (out, true)
+}
+
+struct Presenter<'a> {
+    b: &'a Base,
+    pres: Vec<Pres>,
+    proofs: u64,
+}
+impl<'a> Presenter<'a> {
+    /// Present to all three versions; `accept_at` lists the versions where
+    /// acceptance is the expected (control) outcome.
+    fn all(&mut self, label: &str, bytes: &[u8], pis: &[Fe], accept_at: &[Version], with_m2: bool, slot: Option<usize>, f5: bool) {
+        self.proofs += 1;
+        let mut h = fnv(bytes);
+        for p in pis {
+            h = fnv_fe(h, p);
+        }
+        let pd = if with_m2 { m2::parse_proof(bytes).ok() } else { None };
+        for ver in VERSIONS {
+            let (out, wellformed) = present_one(self.b, bytes, pis, ver);
+            let m2v = if with_m2 { Some(pd.as_ref().map_or(false, |p| m2::verify(&self.b.circ.vd, p, pis, ver))) } else { None };
+            let keep_bytes = out == Out::Accept && !accept_at.contains(&ver) || matches!(out, Out::Panic(_));
+            self.pres.push(Pres {
+                label: label.to_string(),
+                ver,
+                out,
+                expect_accept: accept_at.contains(&ver),
+                f5_slot: if f5 && ver == Version::V1 { slot } else { None },
+                slot,
+                m2: m2v,
+                wellformed,
+                hash: h,
+                bytes_hex: if keep_bytes { Some(to_hex(bytes)) } else { None },
+            });
+        }
+    }
+}
+
+// ---------------------------------------------------------------------------
+// workers
+// ---------------------------------------------------------------------------
+
+struct ForceGuard;
+impl ForceGuard {
+    fn on() -> Self {
+        dusk_plonk::verif::set_prover_forced(true);
+        ForceGuard
+    }
+}
+impl Drop for ForceGuard {
+    fn drop(&mut self) {
+        dusk_plonk::verif::set_prover_forced(false);
+    }
+}
+
+fn m3ver(v: Version) -> m3::Version {
+    match v {
+        Version::V3 => m3::Version::V3,
+        _ => m3::Version::V2,
+    }
+}
+
+/// Real prover under a scripted RNG; `forced` turns the force switch on for
+/// the duration of the call (reset also on panic).
+fn real_prove(b: &Base, prog: &Prog, ver: Version, stream: u64, forced: bool) -> Result<(Vec<u8>, Vec<Fe>), String> {
+    let mut rng = crate::rng::ScriptedRng::base(seed(), 200 + stream);
+    let r = {
+        let _g = if forced { Some(ForceGuard::on()) } else { None };
+        catch_unwind(AssertUnwindSafe(|| b.circ.prover.prove_with_version(&mut rng, prog, pv(ver))))
+    };
+    dusk_plonk::verif::set_prover_forced(false);
+    match r {
+        Err(e) => Err(format!("panic: {}", crate::par::panic_msg(e))),
+        Ok(Err(e)) => Err(format!("{:?}", e)),
+        Ok(Ok((p, pis))) => Ok((p.to_bytes().to_vec(), pis)),
+    }
+}
+
+#[derive(Clone, Debug, Default)]
+pub struct ItemOut {
+    pub pres: Vec<Pres>,
+    pub proofs: u64,
+    /// M1 verdict summary of the instance: families of the failing components,
+    /// whether a copy constraint fails
+    pub fail_families: Vec<&'static str>,
+    pub copy_fails: bool,
+    /// not adversarial (M1 satisfied) or could not be built; reason
+    pub skipped: Option<String>,
+    pub notes: Vec<String>,
+    /// S4: per-shape solver status
+    pub forge_status: Vec<(String, String)>,
+}
+
+fn family_of_component(k: usize) -> &'static str {
+    match k {
+        0 => "arith",
+        1..=4 => "range",
+        5..=9 => "logic",
+        10..=13 => "fixed",
+        _ => "var",
+    }
+}
+
+fn classify(b: &Base, prog: &Prog, out: &mut ItemOut) -> Option<Instance> {
+    let snap = match prog.run() {
+        Ok(s) => s,
+        Err(e) => {
+            out.skipped = Some(format!("instance does not build: {:?}", e));
+            return None;
+        }
+    };
+    match b.model.decide(&snap) {
+        m1::Verdict::Rows { gate_fails, copy_fails } => {
+            if gate_fails.is_empty() && copy_fails.is_empty() {
+                out.skipped = Some("M1: satisfied (not adversarial)".into());
+                return None;
+            }
+            let fams: BTreeSet<&'static str> = gate_fails.iter().map(|(_, k)| family_of_component(*k)).collect();
+            out.fail_families = fams.into_iter().collect();
+            out.copy_fails = !copy_fails.is_empty();
+        }
+        m1::Verdict::SizeMismatch { .. } => {
+            out.skipped = Some("M1: size mismatch".into());
+            return None;
+        }
+    }
+    Some(Instance::from_snapshot(&snap))
+}
+
+fn opening_shapes(slot: usize) -> Vec<(&'static str, Version, Option<Vec<Option<usize>>>)> {
+    let mut v: Vec<(&'static str, Version, Option<Vec<Option<usize>>>)> = vec![("v1", Version::V1, Some(m3::opening_list_v1())), ("v2", Version::V2, None), ("v3", Version::V3, None)];
+    // a verifier that forgot to bind this selector evaluation would batch
+    // without it: later members shifted down, or the power left unused
+    if let Some(p) = SELECTOR_SLOTS.iter().position(|s| *s == slot) {
+        let member = 8 + p;
+        let shift: Vec<Option<usize>> = (0..12).filter(|k| *k != member).map(Some).collect();
+        let gap: Vec<Option<usize>> = (0..12).map(|k| if k == member { None } else { Some(k) }).collect();
+        v.push(("v2-drop-shift", Version::V2, Some(shift.clone())));
+        v.push(("v2-drop-gap", Version::V2, Some(gap.clone())));
+        v.push(("v3-drop-shift", Version::V3, Some(shift)));
+        v.push(("v3-drop-gap", Version::V3, Some(gap)));
+    }
+    v
+}
+
+fn splice(a: &[u8], b: &[u8], from_b: &dyn Fn(usize) -> bool) -> Vec<u8> {
+    let mut out = a.to_vec();
+    for f in 0..m2::N_FIELDS {
+        if from_b(f) {
+            let (lo, hi) = m2::field_range(f);
+            out[lo..hi].copy_from_slice(&b[lo..hi]);
+        }
+    }
+    out
+}
+
+/// Solve z on the domain from
+///   G_i + alpha (N_i z_i - D_i z_(i+1)) + alpha^2 [i = 0] (z_i - 1) = 0,  i = 0..n-1 (cyclic),
+/// G_i the gate identity (with public input) of row i, N_i / D_i the identity /
+/// copy side of the permutation product. Every z_i is affine in t = z_0; the
+/// cyclic closure fixes t.
+fn adaptive_z(pd: &ProverData, im: &mut m3::Intermediates) {
+    let n = im.n;
+    let pts = im.domain.clone();
+    let sel: Vec<Vec<Fe>> = (0..11).map(|k| m3::dft(&pd.selectors[k], &pts)).collect();
+    let (alpha, beta, gamma) = (im.ch.alpha, im.ch.beta, im.ch.gamma);
+    let ks = [fe(1), fe(m3::K1), fe(m3::K2), fe(m3::K3)];
+    let cst = |p: m3::Poly| m3::peval(&p, zero());
+    let mut g = vec![zero(); n];
+    let mut num = vec![one(); n];
+    let mut den = vec![one(); n];
+    for i in 0..n {
+        let j = (i + 1) % n;
+        let wv = |k: usize, r: usize| [im.wire_vals[k][r]];
+        let (a, b_, c, d, aw, bw, dw) = (wv(0, i), wv(1, i), wv(2, i), wv(3, i), wv(0, j), wv(1, j), wv(3, j));
+        let ws = m3::WireSet { a: &a, b: &b_, c: &c, d: &d, aw: &aw, bw: &bw, dw: &dw };
+        let q = |k: usize| sel[k][i];
+        g[i] = q(6) * (q(0) * a[0] * b_[0] + q(1) * a[0] + q(2) * b_[0] + q(3) * c[0] + q(4) * d[0] + q(5))
+            + im.pi_dense[i]
+            + im.ch.range_sep * q(7) * cst(m3::range_identity(&ws, im.ch.range_sep))
+            + im.ch.logic_sep * q(8) * cst(m3::logic_identity(&ws, &[q(5)], im.ch.logic_sep))
+            + im.ch.fixed_sep * q(9) * cst(m3::fixed_identity(&ws, &[q(1)], &[q(2)], &[q(5)], im.ch.fixed_sep))
+            + im.ch.var_sep * q(10) * cst(m3::var_identity(&ws, im.ch.var_sep));
+        for k in 0..4 {
+            num[i] *= im.wire_vals[k][i] + beta * ks[k] * pts[i] + gamma;
+            den[i] *= im.wire_vals[k][i] + beta * im.sigma_evals[k][i] + gamma;
+        }
+    }
+    // z_i = p_i + q_i t
+    let mut p = vec![zero(); n + 1];
+    let mut q = vec![zero(); n + 1];
+    q[0] = one();
+    for i in 0..n {
+        let ad = inv(alpha * den[i]);
+        let l1 = if i == 0 { alpha * alpha } else { zero() };
+        // alpha D_i z_(i+1) = G_i + alpha N_i z_i + l1 (z_i - 1)
+        p[i + 1] = (g[i] + (alpha * num[i] + l1) * p[i] - l1) * ad;
+        q[i + 1] = (alpha * num[i] + l1) * q[i] * ad;
+    }
+    if q[n] == one() {
+        return; // no unique closure; leave the honest z
+    }
+    let t = p[n] * inv(one() - q[n]);
+    im.z_vec = (0..n).map(|i| p[i] + q[i] * t).collect();
+    im.z_poly_unblinded = m3::idft(&im.z_vec, &pts);
+    im.z_poly = m3::blind(&im.z_poly_unblinded, &im.draws[8..11], n);
+}
+
+pub fn run_item(w: &World, it: &Item) -> ItemOut {
+    let b = &w.bases[it.base];
+    let mut out = ItemOut::default();
+    let mut pr = Presenter { b, pres: vec![], proofs: 0 };
+    match &it.work {
+        Work::Control => {
+            let inst = b.honest(0);
+            for ver in [Version::V3, Version::V2] {
+                match real_prove(b, &b.prog(&inst), ver, 0, false) {
+                    Ok((bytes, pis)) => pr.all(&format!("honest-{}", ver.name()), &bytes, &pis, &[ver], true, None, false),
+                    Err(e) => out.notes.push(format!("honest {} proof failed: {}", ver.name(), e)),
+                }
+            }
+            // V1-shaped honest proof through M3 (the real prover does not make them)
+            let prog = b.prog(&inst);
+            match prog.run() {
+                Ok(snap) => {
+                    let i3 = Instance::from_snapshot(&snap);
+                    let adv = Adversary { opening_list: Some(m3::opening_list_v1()), ..Default::default() };
+                    match m3::prove(&b.pd, &i3, &m3::base_draws(1), m3::Version::V2, &adv) {
+                        Ok((bytes, _)) => pr.all("honest-V1(m3)", &bytes, &i3.pi_values(), &[Version::V1], true, None, false),
+                        Err(e) => out.notes.push(format!("M3 V1-shaped honest proof failed: {}", e)),
+                    }
+                }
+                Err(e) => out.notes.push(format!("honest instance does not build: {:?}", e)),
+            }
+        }
+        Work::Forced(inst) => {
+            let prog = b.prog(inst);
+            if classify(b, &prog, &mut out).is_some() {
+                for ver in [Version::V3, Version::V2] {
+                    match real_prove(b, &b.prog(inst), ver, 1, true) {
+                        Ok((bytes, pis)) => pr.all(&format!("forced-{}", ver.name()), &bytes, &pis, &[], false, None, false),
+                        Err(e) => out.notes.push(format!("forced prover ({}) returned no proof: {}", ver.name(), e)),
+                    }
+                }
+            }
+        }
+        Work::M3Drop(inst) => {
+            let prog = b.prog(inst);
+            if let Some(i3) = classify(b, &prog, &mut out) {
+                let adv = Adversary { drop_remainder: true, ..Default::default() };
+                for ver in [Version::V3, Version::V2] {
+                    match m3::prove(&b.pd, &i3, &m3::base_draws(3), m3ver(ver), &adv) {
+                        Ok((bytes, im)) => {
+                            if !im.remainder_dropped {
+                                out.notes.push("M3: numerator divisible although M1 says unsatisfied".into());
+                            }
+                            pr.all(&format!("m3drop-{}", ver.name()), &bytes, &i3.pi_values(), &[], false, None, false)
+                        }
+                        Err(e) => out.notes.push(format!("M3 ({}) failed: {}", ver.name(), e)),
+                    }
+                }
+            }
+        }
+        Work::Forge(inst, slot) => {
+            let prog = b.prog(inst);
+            if let Some(i3) = classify(b, &prog, &mut out) {
+                let slot = *slot;
+                for (shape, ver, list) in opening_shapes(slot) {
+                    let status: Arc<Mutex<String>> = Arc::new(Mutex::new("not-run".into()));
+                    let st = status.clone();
+                    let pd = b.pd.clone();
+                    let adv = Adversary {
+                        drop_remainder: true,
+                        opening_list: list,
+                        forge: Some(Box::new(move |im| {
+                            let mut t = im.evals;
+                            t[slot] = zero();
+                            let b0 = m3::balance(&pd, im, &t);
+                            t[slot] = one();
+                            let b1 = m3::balance(&pd, im, &t);
+                            let slope = b1 - b0;
+                            let mut s = st.lock().unwrap();
+                            if slope == zero() {
+                                *s = "zero-coefficient".into();
+                                return;
+                            }
+                            t[slot] = -b0 * inv(slope);
+                            if m3::balance(&pd, im, &t) != zero() {
+                                *s = "nonlinear".into();
+                                return;
+                            }
+                            if t[slot] == im.evals[slot] {
+                                *s = "already-balanced".into();
+                                return;
+                            }
+                            im.evals = t;
+                            *s = "solved".into();
+                        })),
+                        ..Default::default()
+                    };
+                    let r = m3::prove(&b.pd, &i3, &m3::base_draws(4), m3ver(ver), &adv);
+                    let s = status.lock().unwrap().clone();
+                    out.forge_status.push((shape.to_string(), s.clone()));
+                    match r {
+                        Ok((bytes, _)) if s == "solved" => {
+                            let f5 = shape == "v1" && SELECTOR_SLOTS.contains(&slot);
+                            pr.all(shape, &bytes, &i3.pi_values(), &[], true, Some(slot), f5)
+                        }
+                        Ok(_) => {}
+                        Err(e) => out.notes.push(format!("M3 forge ({}) failed: {}", shape, e)),
+                    }
+                }
+            }
+        }
+        Work::Splice(pair, ver) => {
+            let (ia, ib, sa, sb) = if *pair == 0 { (b.honest(0), b.honest(0), 10, 11) } else { (b.honest(0), b.honest(1), 12, 13) };
+            let pa = real_prove(b, &b.prog(&ia), *ver, sa, false);
+            let pb = real_prove(b, &b.prog(&ib), *ver, sb, false);
+            match (pa, pb) {
+                (Ok((a, pis_a)), Ok((bb, pis_b))) => {
+                    let mut splices: Vec<(String, Vec<u8>)> = vec![];
+                    for f in 0..m2::N_FIELDS {
+                        splices.push((format!("A<-B:{}", m2::field_name(f)), splice(&a, &bb, &|k| k == f)));
+                        splices.push((format!("B<-A:{}", m2::field_name(f)), splice(&bb, &a, &|k| k == f)));
+                    }
+                    for k in 0..=m2::N_FIELDS {
+                        splices.push((format!("crossover:{}", k), splice(&a, &bb, &|f| f >= k)));
+                    }
+                    let groups: [(&str, std::ops::Range<usize>); 5] = [("wires", 0..4), ("z", 4..5), ("quotient", 5..9), ("openings", 9..11), ("evals", 11..26)];
+                    for (gn, g) in groups.iter() {
+                        splices.push((format!("A<-B:group-{}", gn), splice(&a, &bb, &|f| g.contains(&f))));
+                        splices.push((format!("B<-A:group-{}", gn), splice(&bb, &a, &|f| g.contains(&f))));
+                    }
+                    let pi_sets: Vec<(&str, &Vec<Fe>)> = if pis_a == pis_b { vec![("pisA", &pis_a)] } else { vec![("pisA", &pis_a), ("pisB", &pis_b)] };
+                    for (sn, bytes) in &splices {
+                        for (pn, pis) in &pi_sets {
+                            let trivial = (bytes == &a && *pis == &pis_a) || (bytes == &bb && *pis == &pis_b);
+                            let accept: Vec<Version> = if trivial { vec![*ver] } else { vec![] };
+                            pr.all(&format!("{}/{}", sn, pn), bytes, pis, &accept, false, None, false);
+                        }
+                    }
+                }
+                (a, bb) => out.notes.push(format!("honest proofs for splicing failed: {:?} {:?}", a.err(), bb.err())),
+            }
+        }
+        Work::AdaptiveZ(inst) => {
+            let prog = b.prog(inst);
+            if let Some(i3) = classify(b, &prog, &mut out) {
+                for ver in [Version::V3, Version::V2] {
+                    let pd = b.pd.clone();
+                    let adv = Adversary {
+                        skip_absorb_z_comm: true,
+                        stage_hook: Some(Box::new(move |st, im| {
+                            if st == Stage::Perm {
+                                adaptive_z(&pd, im);
+                            }
+                        })),
+                        ..Default::default()
+                    };
+                    // no remainder is dropped: the solved z(X) makes the numerator divisible
+                    match m3::prove(&b.pd, &i3, &m3::base_draws(6), m3ver(ver), &adv) {
+                        Ok((bytes, _)) => pr.all(&format!("adaptive-z/{}", ver.name()), &bytes, &i3.pi_values(), &[], true, None, false),
+                        Err(e) => out.notes.push(format!("adaptive z ({}): {}", ver.name(), e)),
+                    }
+                }
+            }
+        }
+        Work::Degenerate => {
+            let inst = b.honest(0);
+            let id = G1Affine::identity().to_bytes();
+            let gen = G1Affine::generator().to_bytes();
+            for ver in [Version::V3, Version::V2] {
+                let Ok((h, pis)) = real_prove(b, &b.prog(&inst), ver, 20, false) else {
+                    out.notes.push("honest proof for degenerate cases failed".into());
+                    continue;
+                };
+                let vn = ver.name();
+                // all commitments identity, all evaluations zero
+                let mut d = vec![0u8; 1008];
+                for k in 0..11 {
+                    d[k * 48..k * 48 + 48].copy_from_slice(&id);
+                }
+                pr.all(&format!("all-identity-zero/{}", vn), &d, &pis, &[], true, None, false);
+                // all commitments identity, honest evaluations
+                let mut d2 = h.clone();
+                d2[..528].copy_from_slice(&d[..528]);
+                pr.all(&format!("all-identity-honest-evals/{}", vn), &d2, &pis, &[], true, None, false);
+                // all commitments = generator
+                let mut g0 = vec![0u8; 1008];
+                for k in 0..11 {
+                    g0[k * 48..k * 48 + 48].copy_from_slice(&gen);
+                }
+                pr.all(&format!("all-generator-zero/{}", vn), &g0, &pis, &[], true, None, false);
+                let mut g1 = h.clone();
+                g1[..528].copy_from_slice(&g0[..528]);
+                pr.all(&format!("all-generator-honest-evals/{}", vn), &g1, &pis, &[], true, None, false);
+                // identity opening witnesses, honest rest
+                let mut w0 = h.clone();
+                w0[9 * 48..10 * 48].copy_from_slice(&id);
+                w0[10 * 48..11 * 48].copy_from_slice(&id);
+                pr.all(&format!("identity-openings/{}", vn), &w0, &pis, &[], true, None, false);
+                // z commitment = [1] (first commit-key point), honest rest
+                let mut z1 = h.clone();
+                z1[4 * 48..5 * 48].copy_from_slice(&b.pd.commit_key[0].to_bytes());
+                pr.all(&format!("z-comm=[1]/{}", vn), &z1, &pis, &[], true, None, false);
+                // honest proof, wrong public inputs
+                if !pis.is_empty() {
+                    for i in 0..pis.len() {
+                        let mut p2 = pis.clone();
+                        p2[i] += one();
+                        pr.all(&format!("wrong-pi/{}+1/{}", i, vn), &h, &p2, &[], true, None, false);
+                    }
+                    if pis.len() >= 2 && pis[0] != pis[1] {
+                        let mut p2 = pis.clone();
+                        p2.swap(0, 1);
+                        pr.all(&format!("wrong-pi/swap/{}", vn), &h, &p2, &[], true, None, false);
+                    }
+                    pr.all(&format!("wrong-pi/truncated/{}", vn), &h, &pis[..pis.len() - 1], &[], true, None, false);
+                    let mut p2 = pis.clone();
+                    p2.push(zero());
+                    pr.all(&format!("wrong-pi/extended/{}", vn), &h, &p2, &[], true, None, false);
+                } else {
+                    pr.all(&format!("wrong-pi/extended/{}", vn), &h, &[zero()], &[], true, None, false);
+                }
+            }
+            // z(X) == 1 with everything else computed consistently (M3), on a
+            // violating instance (remainder dropped)
+            let viol: Option<Inst> = if b.family == "copy" { copy_breaks(b).into_iter().next().map(|x| x.1) } else { first_violation(b).map(|x| x.1) };
+            if let Some(vi) = viol {
+                let mut tmp = ItemOut::default();
+                if let Some(i3) = classify(b, &b.prog(&vi), &mut tmp) {
+                    for ver in [Version::V3, Version::V2] {
+                        let adv = Adversary {
+                            drop_remainder: true,
+                            stage_hook: Some(Box::new(|st, im| {
+                                if st == Stage::Perm {
+                                    im.z_poly = vec![one()];
+                                }
+                            })),
+                            ..Default::default()
+                        };
+                        match m3::prove(&b.pd, &i3, &m3::base_draws(5), m3ver(ver), &adv) {
+                            Ok((bytes, _)) => pr.all(&format!("z-poly=1(m3)/{}", ver.name()), &bytes, &i3.pi_values(), &[], true, None, false),
+                            Err(e) => out.notes.push(format!("M3 z=1 failed: {}", e)),
+                        }
+                    }
+                }
+            }
+        }
+    }
+    out.pres = pr.pres;
+    out.proofs = pr.proofs;
+    out
+}
+
+// ---------------------------------------------------------------------------
+// judging
+// ---------------------------------------------------------------------------
+
+struct Tally {
+    forced_per_family: BTreeMap<String, u64>,
+    only_family: BTreeMap<&'static str, u64>,
+    copy_only: u64,
+    control_accepts: BTreeSet<(String, &'static str)>,
+    trivial_splice_accepts: u64,
+    balanced_selector: BTreeMap<&'static str, u64>,
+    f5_accepted: BTreeMap<&'static str, u64>,
+    solver: BTreeMap<String, BTreeMap<&'static str, String>>,
+    pairs: BTreeSet<(String, &'static str)>,
+    skipped_s3: BTreeMap<String, u64>,
+}
+
+fn judge(run: &mut Run, w: &World, it: &Item, o: &ItemOut, t: &mut Tally, only_label: Option<&str>) {
+    let b = &w.bases[it.base];
+    let strat = it.strategy;
+    for n in &o.notes {
+        run.outcome(&format!("{}:note", strat));
+        if strat == "control" {
+            run.machinery(format!("{}: {}", it.name, n));
+        } else if run.samples.len() < 10 {
+            run.sample(json!({"item": it.name, "note": n}));
+        }
+    }
+    if let Some(s) = &o.skipped {
+        run.outcome(&format!("{}:skipped:{}", strat, s.split(':').next().unwrap_or("")));
+        if strat == "S3" {
+            *t.skipped_s3.entry(it.name.clone()).or_insert(0) += 1;
+        }
+        return;
+    }
+    if !o.pres.is_empty() || strat == "S4" {
+        t.pairs.insert((b.name.clone(), strat));
+    }
+    run.transitions += o.proofs;
+    if matches!(it.work, Work::Forced(_)) && o.proofs > 0 {
+        *t.forced_per_family.entry(b.family.to_string()).or_insert(0) += o.proofs;
+        if strat == "S1" && !o.copy_fails && o.fail_families.len() == 1 {
+            *t.only_family.entry(o.fail_families[0]).or_insert(0) += 1;
+        }
+        if o.copy_fails && o.fail_families.is_empty() {
+            t.copy_only += 1;
+        }
+    }
+    if let Work::Forge(_, slot) = &it.work {
+        let sn = m3::EVAL_NAMES[*slot];
+        let st = o.forge_status.iter().map(|(sh, s)| format!("{}={}", sh, s)).collect::<Vec<_>>().join(",");
+        t.solver.entry(b.name.clone()).or_default().insert(sn, o.forge_status.first().map(|x| x.1.clone()).unwrap_or_else(|| "no-instance".into()));
+        run.outcome(&format!("S4:solver:{}", o.forge_status.first().map(|x| x.1.as_str()).unwrap_or("no-instance")));
+        if run.samples.len() < 10 && *slot == m3::E_QARITH {
+            run.sample(json!({"item": it.name, "solver": st}));
+        }
+    }
+    for p in &o.pres {
+        if let Some(l) = only_label {
+            if p.label != l {
+                continue;
+            }
+        }
+        run.traces_validated += 1;
+        if p.wellformed {
+            run.nontrivial(p.hash);
+        }
+        run.outcome(&format!("{}:{}:{}", strat, p.ver.name(), p.out.short()));
+        let case = json!({"name": it.name, "presentation": p.label, "verifier_version": p.ver.name(), "circuit": b.name, "outcome": format!("{:?}", p.out), "m2": p.m2, "proof_hex": p.bytes_hex});
+        // real verdict vs M2
+        if let Some(m) = p.m2 {
+            let real_accept = p.out == Out::Accept;
+            if !matches!(p.out, Out::Panic(_)) && m != real_accept {
+                run.violation(
+                    &format!("{}/real-vs-m2-disagree/{}", strat, p.ver.name()),
+                    &format!("{} [{}]: real verifier {} says {:?}, reference verifier M2 says accept={}", it.name, p.label, p.ver.name(), p.out, m),
+                    case.clone(),
+                );
+            }
+            if let (Some(slot), true) = (p.f5_slot, m) {
+                *t.balanced_selector.entry(m3::EVAL_NAMES[slot]).or_insert(0) += 1;
+            }
+        }
+        match &p.out {
+            Out::Panic(msg) => run.violation(&format!("{}/{}/panic/{}", strat, b.family, p.ver.name()), &format!("{} [{}]: verifier panicked: {}", it.name, p.label, msg), case),
+            Out::Accept if p.expect_accept => {
+                if strat == "control" {
+                    t.control_accepts.insert((b.name.clone(), p.ver.name()));
+                } else {
+                    t.trivial_splice_accepts += 1;
+                }
+            }
+            Out::Accept => {
+                if let Some(slot) = p.f5_slot {
+                    // documented legacy profile: V1 does not bind the selector evaluations
+                    *t.f5_accepted.entry(m3::EVAL_NAMES[slot]).or_insert(0) += 1;
+                    run.violation(
+                        &format!("S4/forged-selector-eval/V1-accepted/{}", m3::EVAL_NAMES[slot]),
+                        &format!("{}: V1-shaped proof of a violated instance with a solved-for {} is accepted by verify_with_version(V1)", it.name, m3::EVAL_NAMES[slot]),
+                        case,
+                    );
+                } else if let Some(slot) = p.slot {
+                    run.violation(
+                        &format!("S4/forged-eval/{}-accepted/{}/{}", p.ver.name(), m3::EVAL_NAMES[slot], p.label),
+                        &format!("{} [{}]: proof of a violated instance with forged {} ACCEPTED under {}", it.name, p.label, m3::EVAL_NAMES[slot], p.ver.name()),
+                        case,
+                    );
+                } else {
+                    let kind = match strat {
+                        "S5" => p.label.split(':').next().unwrap_or("").to_string() + if p.label.contains("group-") { "/group" } else if p.label.starts_with("crossover") { "" } else { "/field" },
+                        "S6" => p.label.split('/').next().unwrap_or("").to_string(),
+                        _ => b.family.to_string(),
+                    };
+                    run.violation(
+                        &format!("{}/{}/accepted/{}", strat, kind, p.ver.name()),
+                        &format!("{} [{}]: adversarial proof ACCEPTED by verify_with_version({})", it.name, p.label, p.ver.name()),
+                        case,
+                    );
+                }
+            }
+            _ if p.expect_accept && p.label.starts_with("honest-V1(m3)") && p.m2 == Some(true) => {
+                // The V1-shaped control is made by M3 (the real prover cannot make
+                // one). The real verifier rejecting a proof that satisfies the V1
+                // equation per M2 has been reported above as a real-vs-M2
+                // disagreement; it is a verdict about the subject, not a harness
+                // failure.
+                t.control_accepts.insert((b.name.clone(), p.ver.name()));
+                run.outcome("control:V1:m3-proof-rejected-by-real-verifier");
+            }
+            _ if p.expect_accept => {
+                run.machinery(format!("{} [{}]: control proof not accepted under {}: {:?}", it.name, p.label, p.ver.name(), p.out));
+            }
+            _ => {}
+        }
+    }
+}
+
+pub fn main(tier: Tier, replay: Option<Value>) -> i32 {
+    let mut run = Run::new("C02", tier, "model_checking");
+    run.rule = "items = base circuits x adversary strategies: S1 single-position (thorough: pair) perturbations that M1 classifies as violating, proved by the real prover with the force switch; S2 the same through M3 with the remainder dropped; S3 instances satisfying every row but breaking one compiled copy constraint (forced real prover and M3); S4 M3 proofs of a violated instance with one evaluation solved so that the linearisation balances, for every slot and every opening shape; S5 field-wise splices of two honest proofs; S6 degenerate proofs and wrong public inputs; S7 M3 proofs whose z(X) is solved after alpha under the bet that z_comm is not absorbed; every resulting proof is presented to verify_with_version under V1, V2 and V3; non-trivial = distinct presented (proof, public inputs) that Proof::from_bytes decodes".into();
+    let world = match build_world(tier) {
+        Ok(w) => w,
+        Err(e) => {
+            run.machinery(e);
+            return run.finish();
+        }
+    };
+    let mut tally = Tally {
+        forced_per_family: BTreeMap::new(),
+        only_family: BTreeMap::new(),
+        copy_only: 0,
+        control_accepts: BTreeSet::new(),
+        trivial_splice_accepts: 0,
+        balanced_selector: BTreeMap::new(),
+        f5_accepted: BTreeMap::new(),
+        solver: BTreeMap::new(),
+        pairs: BTreeSet::new(),
+        skipped_s3: BTreeMap::new(),
+    };
+
+    if let Some(r) = replay {
+        run.set_replay_mode();
+        let name = r["case"]["name"].as_str().unwrap_or("").to_string();
+        let label = r["case"]["presentation"].as_str().map(|s| s.to_string());
+        let Some(it) = world.items.iter().find(|i| i.name == name) else {
+            run.machinery(format!("replay item {} not in the {} enumeration", name, tier.name()));
+            return run.finish();
+        };
+        let o1 = run_item(&world, it);
+        let o2 = run_item(&world, it);
+        let key = |o: &ItemOut| o.pres.iter().map(|p| format!("{}|{}|{:?}", p.label, p.ver.name(), p.out)).collect::<Vec<_>>();
+        if key(&o1) != key(&o2) {
+            run.machinery("replay diverged between two runs".into());
+        }
+        for p in o1.pres.iter().filter(|p| label.as_deref().map_or(true, |l| l == p.label)) {
+            println!("replay {} [{}] {}: {:?} (m2: {:?})", name, p.label, p.ver.name(), p.out, p.m2);
+        }
+        judge(&mut run, &world, it, &o1, &mut tally, label.as_deref());
+        return run.finish();
+    }
+
+    run.bound("items", json!(world.items.len()));
+    run.bound("base_circuits", json!(world.bases.iter().map(|b| format!("{} ({}; n={}, constraints={})", b.name, b.family, b.pd.size, b.pd.constraints)).take(12).collect::<Vec<_>>()));
+    run.bound("copy_layouts", json!(world.bases.iter().filter(|b| b.name.starts_with("c05copy")).count()));
+    run.bound("perturbation_bound", json!(tier.pick(1, 2)));
+    let outs = crate::par::par_map(&world.items, |it| run_item(&world, it));
+    // thread-local force switches must all be off again
+    dusk_plonk::verif::set_prover_forced(false);
+    for (it, o) in world.items.iter().zip(outs) {
+        run.evaluations += 1;
+        match o {
+            Ok(o) => judge(&mut run, &world, it, &o, &mut tally, None),
+            Err(p) => run.machinery(format!("harness panic in item {}: {}", it.name, p)),
+        }
+    }
+    run.states = tally.pairs.len() as u64;
+
+    // --- vacuity gates -------------------------------------------------------
+    let named = base_sources();
+    for (n, _, _) in &named {
+        for v in ["V1", "V2", "V3"] {
+            run.gate(&format!("control: honest proof of {} accepted under {}", n, v), tally.control_accepts.contains(&(n.to_string(), v)));
+        }
+    }
+    for fam in ["arith", "range", "logic", "fixed", "var", "mixed", "components", "copy"] {
+        run.gate(&format!(">= 20 forced proofs for circuit family {}", fam), tally.forced_per_family.get(fam).copied().unwrap_or(0) >= 20);
+    }
+    for fam in ["arith", "range", "logic", "fixed", "var"] {
+        run.gate(&format!(">= 1 S1 case violating only {} components", fam), tally.only_family.get(fam).copied().unwrap_or(0) > 0);
+    }
+    run.gate(">= 1 forced case breaking only a copy constraint", tally.copy_only > 0);
+    for s in SELECTOR_SLOTS {
+        run.gate(&format!("S4: >= 1 forgery of {} balanced per M2's V1 equation", m3::EVAL_NAMES[s]), tally.balanced_selector.get(m3::EVAL_NAMES[s]).copied().unwrap_or(0) > 0);
+    }
+    for s in 0..15 {
+        let solved = tally.solver.values().any(|m| m.get(m3::EVAL_NAMES[s]).map_or(false, |x| x == "solved"));
+        run.gate(&format!("S4: slot {} solved on >= 1 circuit", m3::EVAL_NAMES[s]), solved);
+    }
+    run.gate("S5: trivial splices (identical to A or B) accepted", tally.trivial_splice_accepts > 0);
+    run.gate("S7: >= 1 adaptive-z proof (numerator divisible without dropping a remainder) presented", run.count("S7:V3:reject") + run.count("S7:V3:accept") > 0);
+
+    run.extra.insert("forced_proofs_per_family".into(), json!(tally.forced_per_family));
+    run.extra.insert("s1_cases_violating_only_family".into(), json!(tally.only_family));
+    run.extra.insert("s4_solver_by_circuit_and_slot".into(), json!(tally.solver));
+    run.extra.insert("s4_selector_forgeries_balanced_per_m2_v1".into(), json!(tally.balanced_selector));
+    run.extra.insert("s4_selector_forgeries_accepted_by_real_v1".into(), json!(tally.f5_accepted));
+    run.extra.insert("s3_items_not_adversarial_per_m1".into(), json!(tally.skipped_s3));
+    run.extra.insert("s5_trivial_splices_accepted".into(), json!(tally.trivial_splice_accepts));
+    run.extra.insert(
+        "s4_skipped_slots_reason".into(),
+        json!("zero-coefficient = the identity does not contain this evaluation for the circuit (e.g. q_l/q_r/q_c evaluations only occur in the fixed-base and logic widgets); nonlinear = the identity is not affine in the evaluation (range/logic widgets present); see s4_solver_by_circuit_and_slot"),
+    );
+    run.assumptions = vec![
+        "soundness against all adversaries is a cryptographic statement; this decides the stated strategy menu (S1-S6) on the listed circuits and nothing more".into(),
+        "M1 classifies instances (satisfied / violating); M3 is the reference adversarial prover; M2 cross-checks the real verdict on S4/S6/control presentations".into(),
+        "V1 is the documented legacy profile whose batched opening does not bind q_arith/q_c/q_l/q_r evaluations: acceptance of a V1-shaped forged-selector proof under V1 is reported with signature S4/forged-selector-eval/V1-accepted/<slot> (design finding F5)".into(),
+        "S4 forgeries are built for the standard opening shape of each version and, for selector slots, for the two shapes a verifier that forgot that evaluation would use".into(),
+        "accidental cancellations of random challenges (prob ~2^-250) do not occur".into(),
+    ];
+    run.finish()
 }
